@@ -14,6 +14,10 @@ def sh(*a, **k):
 def one(sid, tier):
     d = os.path.join(VERIF, "seeded", sid)
     prop = sid.split("_")[0]
+    meta = json.load(open(os.path.join(d, "meta.json")))
+    if meta.get("status") in ("not_adopted", "neutralised"):
+        return sid, "skipped:" + meta["status"], {"reason": meta.get("status_reason", "")[:120]}
+    checks = meta.get("check_with") or [prop]
     wt = f"/tmp/eql_seedcheck_{sid}"
     sh("git", "-C", "/repo", "worktree", "remove", "--force", wt)
     r = sh("git", "-C", "/repo", "worktree", "add", "--detach", wt, "HEAD")
@@ -25,10 +29,14 @@ def one(sid, tier):
         tests = t.stdout.strip().splitlines()[-1] if t.stdout.strip() else "?"
         demo = sh("/venv/bin/python", os.path.join(d, "demo.py"), cwd=wt, env=env).returncode
         t0 = time.time()
-        c = sh(os.path.join(VERIF, "check"), prop, "--tier", tier,
-               env={**os.environ, "EQL_REPO": wt, "EQL_EVIDENCE_DIR": f"/tmp/eql_seedcheck_ev_{sid}"}, cwd=VERIF)
-        res = {0: "MISSED", 1: "caught", 2: "inconclusive"}.get(c.returncode, f"rc={c.returncode}")
-        return sid, res, {"tests": tests, "demo_rc": demo, "seconds": round(time.time() - t0, 1)}
+        res = "MISSED"
+        for chk in checks:
+            c = sh(os.path.join(VERIF, "check"), chk, "--tier", tier,
+                   env={**os.environ, "EQL_REPO": wt, "EQL_EVIDENCE_DIR": f"/tmp/eql_seedcheck_ev_{sid}"}, cwd=VERIF)
+            res = {0: "MISSED", 1: "caught", 2: "inconclusive"}.get(c.returncode, f"rc={c.returncode}")
+            if res == "caught":
+                break
+        return sid, res, {"tests": tests, "demo_rc": demo, "checks": checks, "seconds": round(time.time() - t0, 1)}
     finally:
         sh("git", "-C", "/repo", "worktree", "remove", "--force", wt)
         sh("rm", "-rf", f"/tmp/eql_seedcheck_ev_{sid}")
@@ -47,7 +55,7 @@ def main():
     with ThreadPoolExecutor(a.j) as ex:
         for sid, res, info in ex.map(lambda s: one(s, a.tier), ids):
             print(sid, res, info, flush=True)
-            if res != "caught":
+            if res != "caught" and not res.startswith("skipped:"):
                 bad += 1
             mp = os.path.join(VERIF, "seeded", sid, "meta.json")
             meta = json.load(open(mp))
